@@ -20,6 +20,11 @@ theorem DenotesOpt.lower_eq {e : Option Plain} {t : Option Nat} (h : DenotesOpt 
   | absent => rfl
   | given hd => simp [lowerOpt, hd.ticks_eq]
 
+theorem DenotesAt.ticks_eq {args : Nat} {sp : Spelling} {t : Nat} (h : DenotesAt args sp t) : sp.ticks args 0 = some t := by
+  cases h with
+  | plain hd => simpa [Spelling.ticks] using hd.ticks_eq
+  | callable hd => simpa [Spelling.ticks] using hd.ticks_eq
+
 end CashewsVerif.Ttl
 
 namespace CashewsVerif
